@@ -341,3 +341,27 @@ B("c14-keep-misaligned-hits", ["C14"], "tokenizers.py", "            except Unic
 B("c14-extractors-filtered-for-db", ["C14"], "tokenizers.py", "            expressions = [convert_regex(e.regex) for e in self.extractors]\n", "            expressions = [convert_regex(e.regex) for e in self.extractors if e.strings]\n", rule="R-C14-6")
 B("c14-section-sign-repeat", ["C14"], "tokenizers.py", "                r.replace(r\"§ \", r\"§§? ?\") for r in regex_templates\n", "                r.replace(r\"§ \", r\"§{1,2} ?\") for r in regex_templates\n", rule="R-C14-3")
 N("c14-handler-exception", ["C14"], "tokenizers.py", "                    except hyperscan.error:\n", "                    except Exception:\n")
+
+# ------------------------------------------------------------------ C01 / C02
+P("seed-C01-1", ["C01"], "seeded/C01-1/patch.diff", rule="R-C01-7")
+P("seed-C01-2", ["C01"], "seeded/C01-2/patch.diff", rule="R-C01-6")
+P("seed-C02-1", ["C02"], "seeded/C02-1/patch.diff", rule="R-C02-4")
+P("seed-C02-2", ["C02"], "seeded/C02-2/patch.diff")
+B("c01-supra-branch-dropped", ["C01"], "find.py", "        elif token_type is SupraToken:\n            citation = _extract_supra_citation(document.words, i)\n", "", rule="R-C01-1")
+B("c01-branch-tests-wrong-class", ["C01"], "find.py", "        elif token_type is IdToken:\n", "        elif token_type is SectionToken and False:\n", rule="R-C01-1")
+B("c01-metadata-field-typo", ["C01"], "helpers.py", "    citation.metadata.pin_cite = clean_pin_cite(m[\"pin_cite\"]) or None\n    citation.metadata.publisher = m[\"publisher\"]\n",
+  "    citation.metadata.pincite = clean_pin_cite(m[\"pin_cite\"]) or None\n    citation.metadata.publisher = m[\"publisher\"]\n", rule="R-C01-4")
+B("c01-group-renamed-in-regex", ["C01"], "regexes.py", "        (?P<publisher>\n", "        (?P<pub>\n", rule="R-C01-3")
+B("c01-short-cite-without-space", ["C01"], "regexes.py", 'return regex.replace("(?P<page>", "at (?P<page>")', 'return regex.replace("(?P<page>", "at(?P<page>")', rule="R-C01-5")
+B("c01-short-flag-inverted", ["C01"], "find.py", "            if citation_token.short:\n                citation = _extract_shortform_citation(document.words, i)\n            else:\n                citation = _extract_full_citation(document.words, i)\n",
+  "            if not citation_token.short:\n                citation = _extract_shortform_citation(document.words, i)\n            else:\n                citation = _extract_full_citation(document.words, i)\n", rule="R-C01-5")
+B("c01-backward-anchor-at-start", ["C01"], "helpers.py", '        regex = rf"(?:{regex})$"\n', '        regex = rf"^(?:{regex})"\n', rule="R-C01-6")
+N("c01-rename-token-type", ["C01"], "find.py", "        token_type = type(token)\n", "        token_type = type(token)  # exact class\n")
+B("c02-span-end-from-start", ["C02"], "helpers.py", "            from_token.end + max(extra_chars - len(prefix), 0),\n", "            from_token.start + max(extra_chars - len(prefix), 0),\n", rule="R-C02-4")
+B("c02-full-span-start-plus", ["C02"], "helpers.py", "    citation.full_span_start = citation.span()[0] - match_length\n", "    citation.full_span_start = citation.span()[0] + match_length\n", rule="R-C02-4")
+B("c02-pin-span-end-from-zero", ["C02"], "helpers.py", "        citation.metadata.pin_cite_span_end = citation.span()[1] + len(\n            m[\"pin_cite\"]\n        )\n", "        citation.metadata.pin_cite_span_end = len(\n            m[\"pin_cite\"]\n        )\n", rule="R-C02-4")
+B("c02-span-prefers-token", ["C02"], "models.py", "            self.span_end if self.span_end is not None else self.token.end,\n", "            self.token.end if self.span_end is not None else self.span_end,\n", rule="R-C02-3")
+B("c02-group1-optional", ["C02"], "regexes.py", 'return rf"(?:^|[^a-zA-Z0-9])({regex})(?:[^a-zA-Z0-9]|$)"', 'return rf"(?:^|[^a-zA-Z0-9])({regex})?(?:[^a-zA-Z0-9]|$)"')
+B("c02-markup-offset-not-translated", ["C02"], "find.py", "                span_start=start_in_plain,\n                span_end=end_in_plain,\n", "                span_start=start_in_markup + match.start(1),\n                span_end=end_in_plain,\n", rule="R-C19-5")
+B("c02-balancer-not-rebased", ["C02"], "utils.py", "                start = extended_start + matches[-1].start()\n", "                start = matches[-1].start()\n", rule="R-C02-1")
+N("c02-max-arg-order", ["C02"], "helpers.py", "            from_token.end + max(extra_chars - len(prefix), 0),\n", "            from_token.end + max(0, extra_chars - len(prefix)),\n")
